@@ -52,10 +52,21 @@ func (c19Prop) Phases(tier string) []PhaseCfg {
 	if tier == "thorough" {
 		n = 3_000_000
 	}
-	return []PhaseCfg{{Name: "structural-sweep", Radix: radix, Count: product(radix), P: map[string]int{"seeded_tail": 1}}, {Name: "seeded", Count: n}}
+	return []PhaseCfg{{Name: "structural-sweep", Radix: radix, Count: product(radix), P: map[string]int{"seeded_tail": 1}}, {Name: "seeded", Count: n}, pairPhase(4_000, 300_000, tier)}
 }
 
 func (c19Prop) Gen(t *Tape, ph *PhaseCfg) Case {
+	if ph != nil && ph.P["pair"] == 1 {
+		return genPair(t, func() Case {
+			c := c19Prop{}.genOne(t)
+			c.Decl.Probe.YieldInSet = true
+			return c
+		})
+	}
+	return c19Prop{}.genOne(t)
+}
+
+func (c19Prop) genOne(t *Tape) *c19Case {
 	methods := t.Draw(8)
 	boolFalse := t.Draw(2) == 1
 	isArg := t.Draw(2) == 1
@@ -261,15 +272,29 @@ func expectedProtocol(ps *ProbeSpec, toks []string) (calls []string, fails bool)
 }
 
 func (c19Prop) Exec(cc Case, st *Stats) *Violation {
+	if g, ok := cc.(*genericPair); ok {
+		return execGenericPair(g, st, func(c Case, id int) *Prepared { return c19Prepare(c.(*c19Case), id) },
+			func(c Case) EnvState { return c.(*c19Case).Env }, func(c Case, e EnvState) { c.(*c19Case).Env = e })
+	}
 	c := cc.(*c19Case)
 	c.Env.Apply()
-	p := NewProc(0)
+	pr := c19Prepare(c, 0)
+	RunProc(pr.Proc, pr.Body)
+	EnvState{}.Apply()
+	return pr.Finish(st)
+}
+
+func c19Prepare(c *c19Case, id int) *Prepared {
+	p := NewProc(id)
 	var inst *Instance
-	RunProc(p, func() error {
+	body := func() error {
 		inst = Build(c.App, p)
 		return inst.Cli.Run(c.Argv)
-	})
-	EnvState{}.Apply()
+	}
+	return &Prepared{Proc: p, Body: body, Finish: func(st *Stats) *Violation { return c19Verdict(c, p, inst, st) }}
+}
+
+func c19Verdict(c *c19Case, p *Proc, inst *Instance, st *Stats) *Violation {
 	st.Evals++
 	ps := c.Decl.Probe
 	st.Count(fmt.Sprintf("methods.bool=%v.clear=%v.default=%v", ps.HasBool, ps.HasClear, ps.HasDefault))
